@@ -218,6 +218,17 @@ def run_case(case):
         for rd in range(n_rounds):
             seed_int = int(rng.integers(0, 2 ** 31 - 1))
             before_state = {k: (None if v.value is None else np.asarray(v.value).copy()) for k, v in model.state.items()}
+            # in the second round a leaf variable gets a placeholder of another shape (two stacked samples): the draw
+            # follows the shape of the value that is current when simulate() is called
+            if rd == 1:
+                used = {u_.get("parent") for u_ in units if u_["kind"] == "child"} | {p_ for u_ in units if "parents" in u_ for p_ in u_["parents"]}
+                leaves = [ui for ui in drawn if ui not in used and ui not in skip_units]
+                if leaves:
+                    lf = leaves[int(rng.integers(len(leaves)))]
+                    ph = np.zeros((2,) + prev[lf].shape, np.float32)
+                    objs[lf].value = jax.numpy.asarray(ph)
+                    prev[lf] = ph
+                    res.ev("placeholder_shape_changed_between_simulations")
             # hyper-parameters change right before the simulation (with auto-update off: no update() in between)
             for ui in drawn:
                 if units[ui].get("hyper"):
